@@ -33,6 +33,8 @@ func runC15(w *World, r *Report) {
 	c15Cleanup(w, r)
 	c15IgnoreDefaults(w, r)
 	c15APIVersionDefault(w, r)
+	c15SavePrefix(w, r)
+	c15PackageStateless(w, r)
 }
 
 // stringConstsIn collects string constants (and loads of string constants declared in the package) used in fn.
@@ -103,6 +105,26 @@ func c15WriterReader(w *World, r *Report) {
 			for _, c := range callInstrs(f) {
 				if cal, _ := calleeOf(c.Common()); cal != nil && fnPkgPath(cal) == "bytes" && cal.Name() == "TrimPrefix" {
 					has = true
+				}
+			}
+			// unconditionally: what is kept as the file's data is the result of the trim itself, not a
+			// merge of trimmed and untrimmed bytes (a trim applied only to "text" makes the loaders disagree)
+			for _, b := range f.Blocks {
+				for _, in := range b.Instrs {
+					st, ok := in.(*ssa.Store)
+					if !ok {
+						continue
+					}
+					if _, t, fl := fieldNameOf(st.Addr); t != "BufferedFile" || fl != "Data" {
+						continue
+					}
+					direct := false
+					if cl, ok := stripConv(st.Val).(*ssa.Call); ok {
+						if cal, _ := calleeOf(cl.Common()); cal != nil && fnPkgPath(cal) == "bytes" && cal.Name() == "TrimPrefix" {
+							direct = true
+						}
+					}
+					r.Check(direct, "C15/WRITER-READER", "bom-unconditional/"+e[1], w.InstrPos(st), "the kept data is the result of the byte-order-mark trim on every path", "the data kept for a file is not on every path the result of the byte-order-mark trim: where this loader keeps the mark and its sibling strips it, directory and archive loads of the same chart differ (and save+load is not byte for byte)")
 				}
 			}
 		}
@@ -693,4 +715,92 @@ func chartYamlGuard(fn *ssa.Function, c ssa.CallInstruction) (bool, bool) {
 	}
 	ex, _ := g.PathExists(entryPos(fn), posOf(c), Avoid{}.withEdges(guard...))
 	return !ex, true
+}
+
+// recvFieldWrites: stores in fn (and closures) to fields of its receiver.
+func recvFieldWrites(fn *ssa.Function) []ssa.Instruction {
+	if fn.Signature.Recv() == nil || len(fn.Params) == 0 {
+		return nil
+	}
+	recv := ssa.Value(fn.Params[0])
+	var out []ssa.Instruction
+	for _, f := range withAnon(fn) {
+		for _, b := range f.Blocks {
+			for _, in := range b.Instrs {
+				st, ok := in.(*ssa.Store)
+				if !ok {
+					continue
+				}
+				fa, ok := st.Addr.(*ssa.FieldAddr)
+				if !ok {
+					continue
+				}
+				base := fa.X
+				if fv, isFV := base.(*ssa.FreeVar); isFV && f != fn {
+					_ = fv
+					continue
+				}
+				if base == recv {
+					out = append(out, st)
+				}
+			}
+		}
+	}
+	return out
+}
+
+// c15SavePrefix: the writers of a chart tree descend with the path of where they are: the prefix
+// handed to the recursive call for a dependency is built from the prefix the function was given.
+func c15SavePrefix(w *World, r *Report) {
+	r.Rule("C15/SAVE-PREFIX", "the recursive chart writers (archive and directory) build the location of a dependency from their own location: the recursive call's path argument depends on the path parameter", 1)
+	n := 0
+	for _, fn := range w.FuncsIn("pkg/chart/v2/util") {
+		if fn.Parent() != nil || !strings.HasSuffix(w.FileOf(fn), "save.go") {
+			continue
+		}
+		for _, c := range callInstrs(fn) {
+			f, _ := calleeOf(c.Common())
+			if f == nil || origin(f) != fn {
+				continue
+			}
+			for i, p := range fn.Params {
+				if !isStringType(p.Type()) || i >= len(c.Common().Args) {
+					continue
+				}
+				n++
+				r.Fn(FuncName(fn))
+				dep := false
+				backSlice(c.Common().Args[i], func(x ssa.Value) bool {
+					if x == ssa.Value(p) {
+						dep = true
+					}
+					return false
+				})
+				r.Check(dep, "C15/SAVE-PREFIX", fmt.Sprintf("%s/param:%s", FuncName(fn), p.Name()), w.InstrPos(c), "the recursive call's "+p.Name()+" is built from this call's "+p.Name(), "the recursive call's "+p.Name()+" does not depend on this call's "+p.Name()+": a dependency of a dependency is written as if it sat directly below the top chart, and loading the archive yields another tree")
+			}
+		}
+	}
+	if n == 0 {
+		r.Unk("C15/SAVE-PREFIX", "no-site", "-", "no recursive writer with a path parameter found in save.go")
+	}
+}
+
+// c15PackageStateless: `helm package A B` runs one Package action for all its arguments. What is decided
+// for one chart (its version) is not written into the action's own options.
+func c15PackageStateless(w *World, r *Report) {
+	r.Rule("C15/PACKAGE-STATELESS", "Package.Run writes no field of its receiver: one action object packages several charts, and nothing of the first may stick to the second", 1)
+	fn := w.Fn("pkg/action", "Package.Run")
+	if fn == nil {
+		r.Unk("C15/PACKAGE-STATELESS", "anchor", "-", "Package.Run not found")
+		return
+	}
+	r.Fn(FuncName(fn))
+	ws := recvFieldWrites(fn)
+	pos := w.Pos(fn.Pos())
+	what := ""
+	if len(ws) > 0 {
+		pos = w.InstrPos(ws[0])
+		_, _, what = fieldNameOf(ws[0].(*ssa.Store).Addr)
+	}
+	r.Check(len(ws) == 0, "C15/PACKAGE-STATELESS", "Package.Run", pos, "no option of the action is assigned while packaging", "Package.Run assigns its own option "+what+": with several charts on one command line the value taken from the first chart is applied to the next (the second archive gets the first chart's version)")
 }
